@@ -212,6 +212,9 @@ BNTH = 'n <= 2 skipped elements (core default Iterator::nth / nth_back loop over
 add('k1_handles', 'drain_nth_e8', 'range_nth_h::<E8>(false, false)', props=['C03', 'C02', 'C14'], tier='q', kind='bounded', bound=BNTH, attrs=['#[kani::unwind(5)]'], cost=20)
 add('k1_handles', 'drain_nth_back_e8', 'range_nth_h::<E8>(false, true)', props=['C03', 'C02', 'C14'], tier='q', kind='bounded', bound=BNTH, attrs=['#[kani::unwind(5)]'], cost=20)
 add('k1_handles', 'splice_nth_e8', 'range_nth_h::<E8>(true, false)', props=['C03', 'C02'], tier='q', kind='bounded', bound=BNTH, attrs=['#[kani::unwind(5)]'], cost=20)
+BPROV = 'at most 2 items remain, n <= 2 (core provided Iterator methods loop over next() / next_back())'
+add('k1_handles', 'iter_provided_e8', 'iter_provided_h::<E8>(false)', props=['C14', 'C13'], tier='q', kind='bounded', bound=BPROV, attrs=['#[kani::unwind(5)]'], cost=20)
+add('k1_handles', 'iter_mut_provided_e8', 'iter_provided_h::<E8>(true)', props=['C14'], tier='q', kind='bounded', bound=BPROV, attrs=['#[kani::unwind(5)]'], cost=20)
 add('k1_handles', 'drain_iter_e3', 'range_iter_h::<E3>(false, false)', props=['C14'], tier='t', cost=100)
 
 
